@@ -49,7 +49,27 @@ pub enum Target {
     Empty,
     /// real-kernel fault: create succeeds, every write fails with ENOSPC
     DevFull,
+    /// the same through a link of this name (concurrent callers need distinct names)
+    DevFullNamed(String),
+    /// real-kernel fault: a path that names a directory in an unusual way (no final component,
+    /// trailing slash, dot components): index into `ODD_PATHS`
+    Odd(u8),
 }
+
+/// `{d}` is the run directory (which holds a sub-directory `a-directory` and a file `a-file`).
+pub const ODD_PATHS: [&str; 11] = [
+    ".",
+    "..",
+    "/",
+    "{d}/..",
+    "{d}/.",
+    "{d}/a-directory/",
+    "{d}/a-directory/.",
+    "{d}/a-directory/..",
+    "{d}//",
+    "{d}/a-directory//",
+    "./",
+];
 
 impl Target {
     pub fn class(&self) -> &'static str {
@@ -62,7 +82,8 @@ impl Target {
             Target::LongName => "long_name",
             Target::Nul => "nul",
             Target::Empty => "empty",
-            Target::DevFull => "dev_full",
+            Target::DevFull | Target::DevFullNamed(_) => "dev_full",
+            Target::Odd(_) => "odd_dir_path",
         }
     }
     /// The kernel itself makes creating or fully writing this target impossible.
@@ -506,13 +527,14 @@ pub fn gen_run(verif_seed: u64, index: u64) -> IoRun {
         let is_img = kind == Kind::Png;
         let mut setters = gen::gen_rsetters(&mut rng, is_img, is_img, false);
         let target = if sw.real_kernel && rng.chance(1, 5) {
-            match rng.below(7) {
+            match rng.below(9) {
                 0 => Target::MissingDir(rng.pick(&names).clone()),
                 1 => Target::IsDir,
                 2 => Target::NotDir,
                 3 => Target::LongName,
                 4 => Target::Nul,
                 5 => Target::Empty,
+                6 | 7 => Target::Odd(rng.below(ODD_PATHS.len() as u64) as u8),
                 _ => Target::DevFull,
             }
         } else if rng.chance(1, 6) {
@@ -858,6 +880,8 @@ fn resolve_path(dir: &Path, t: &Target) -> String {
         // a symlink inside the run directory: the code under test runs as root, and a
         // temp-file-and-rename implementation must replace the link, never the device node
         Target::DevFull => format!("{}/full-device", d),
+        Target::DevFullNamed(n) => format!("{}/{}", d, n),
+        Target::Odd(i) => ODD_PATHS[(*i as usize) % ODD_PATHS.len()].replace("{d}", d),
     }
 }
 
@@ -975,7 +999,11 @@ pub fn exec_op(dir: &Path, idx: usize, op: &IoOp, stats: &mut Stats, pre: Option
         Target::NotDir => {
             let _ = std::fs::write(dir.join("a-file"), b"i am a file");
         }
-        Target::DevFull => {
+        Target::Odd(_) => {
+            let _ = std::fs::create_dir_all(dir.join("a-directory"));
+            let _ = std::fs::write(dir.join("a-file"), b"i am a file");
+        }
+        Target::DevFull | Target::DevFullNamed(_) => {
             if !dev_full_ok() {
                 return skip(rep, "no_dev_full", stats);
             }
@@ -1106,7 +1134,7 @@ pub fn exec_op(dir: &Path, idx: usize, op: &IoOp, stats: &mut Stats, pre: Option
     }
 
     // 5. observe
-    let still_device_link = op.target == Target::DevFull
+    let still_device_link = matches!(op.target, Target::DevFull | Target::DevFullNamed(_))
         && std::fs::symlink_metadata(&path).map(|m| m.file_type().is_symlink()).unwrap_or(false);
     let file_state: (String, bool) = if still_device_link {
         ("dev_full".into(), false)
